@@ -76,7 +76,7 @@ def work(item):
     tree_nodes, lo, hi, indents, rmode, cap = item
     CAP[0] = cap
     part = core.Part()
-    for i, (label, v) in enumerate(itertools.islice(corpus.everything(tree_nodes), lo, hi)):
+    for i, (label, v) in enumerate(corpus.materialised(tree_nodes)[lo:hi]):
         check_value(label, v, part, indents, rmode)
         if i == 0:
             part.sample({'kind': label, 'value': repr(v)[:100]})
@@ -88,11 +88,11 @@ def run(tier, seed):
     res = core.Result(PROPERTY, LEVEL, tier, seed)
     tree_nodes = 2 if tier == 'quick' else 3
     indents = (4, 1, 8) if tier == 'quick' else (4, 1, 2, 3, 5, 6, 7, 8)
-    total = sum(1 for _ in corpus.everything(tree_nodes))
+    total = len(corpus.materialised(tree_nodes))
     items = [(tree_nodes, lo, hi, indents, 'some', 36 if tier == 'quick' else 60) for lo, hi in core.chunks(total, 192)]
     res.add(core.pmap(work, items))
     kinds = {}
-    for label, _ in corpus.everything(tree_nodes):
+    for label, _ in corpus.materialised(tree_nodes):
         k = label.split(':')[0]
         kinds[k] = kinds.get(k, 0) + 1
     res.coverage = {
